@@ -155,7 +155,8 @@ class Log:
         self.sources = set()
         self.canaries = 0
         self.new_functions = []
-        self.ghost_origin = {}      # contract line tag -> function whose body the ghost line is spliced into
+        self.ghost_origin = {}
+        self.loop_shapes = {}       # function -> keywords of its loops in source order (for functions with loop clauses)      # contract line tag -> function whose body the ghost line is spliced into
 
     def rule(self, r, msg):
         self.rules.append("%s %s" % (r, msg))
@@ -215,7 +216,7 @@ def _find_all(toks, pat):
     return res
 
 
-def emit_fn(out, src, item, spec, log, where, canary=False, strip=None):
+def emit_fn(out, src, item, spec, log, where, canary=False, strip=None, loop_shapes=None):
     """item: rsscan.Item (kind fn) whose tokens index into src.text; spec: FnSpec"""
     toks = item.toks
     qual = "%s::%s" % (where, item.name)
@@ -332,6 +333,13 @@ def emit_fn(out, src, item, spec, log, where, canary=False, strip=None):
             edits.append((p, p, "insert", [(l + "\n", v) for l, v in spec.tail]))
         if spec.loops:
             loops = find_loops(body)
+            shape = [body[kw].text for (kw, _o, _c) in loops]
+            log.loop_shapes[qual.replace(" ", "")] = shape
+            base = (loop_shapes or {}).get(qual.replace(" ", ""))
+            if base is not None and base != shape:
+                # the loops this function's invariants were written for changed form (while -> loop, for -> while, one more loop ...):
+                # the spliced clauses may no longer describe the exit condition, so a failing proof is not a verdict
+                log.lost_anchors.append("%s: loop structure changed (%s -> %s)" % (qual, " ".join(base) or "none", " ".join(shape) or "none"))
             for K, secs in spec.loops.items():
                 if isinstance(K, tuple):
                     # //@loop `pattern`: the innermost loop whose text contains the pattern (independent of the loop's ordinal)
@@ -475,7 +483,7 @@ def _struct_emit(out, src, item, derives, log, keep_private=False):
         log.rule("R2", "struct %s: fields %s made pub" % (item.name, ", ".join(made)))
 
 
-def build(vc_path, repo_root, defines=None, canary=False, known_drops=None, strip=None):
+def build(vc_path, repo_root, defines=None, canary=False, known_drops=None, strip=None, loop_shapes=None):
     """returns (text, origins, log). defines: dict of NAME->str for `//@if NAME` ... `//@endif` sections."""
     defines = defines or {}
     lines = []          # (text, "file:line")
@@ -527,7 +535,7 @@ def build(vc_path, repo_root, defines=None, canary=False, known_drops=None, stri
         block = None
         src, item = b["src"], b["item"]
         if b["kind"] == "fn":
-            emit_fn(out, src, item, b["fns"][item.name], log, src.path, canary, strip)
+            emit_fn(out, src, item, b["fns"][item.name], log, src.path, canary, strip, loop_shapes)
             return
         toks = item.toks
         where = "%s::%s" % (src.path, " ".join(norm(item.header())) if b["kind"] == "impl" else item.name)
@@ -595,7 +603,7 @@ def build(vc_path, repo_root, defines=None, canary=False, known_drops=None, stri
                             log.functions.pop() if False else None
                     log.new_functions.append("%s [%s]" % (key, kind))
                 seen.add(sub.name)
-                emit_fn(out, src, sub, spec, log, where, canary, strip)
+                emit_fn(out, src, sub, spec, log, where, canary, strip, loop_shapes)
             elif sub.kind == "const" and sub.name in hoisted:
                 out.repo(src, sub.start, hoisted[sub.name][0])
                 out.raw(" %s;\n" % hoisted[sub.name][1])
